@@ -41,6 +41,9 @@ var divAllow = map[string]string{
 
 func c04() []*Ob {
 	return []*Ob{
+		{Prop: "C04", ID: "C04.14", Engine: "SHARE(first error wins)", Floor: 1,
+			Desc:  "a failed fraction fails the batch: in fetchDocsAsync (and searchDocsAsync) a goroutine assigns the error variable it shares with its siblings only inside sync.Once.Do or with a lock held — assigned directly, a fraction that succeeds after another one failed resets it to nil and FetchDocs answers with the failed fraction's documents reported as not found",
+			Check: func(c *Ctx) { sharedErrorFirstWins(c) }},
 		{Prop: "C04", ID: "C04.13", Engine: "PAIR(two sites)", Floor: 1,
 			Desc:  "ids that share a millisecond are all found in a sealed fraction: findLIDs re-justifies its search window at every id (a comparison with the predecessor resets the lower end, the upper end never moves), or sortIDs hands it the ids in full (MID, RID) order",
 			Check: func(c *Ctx) { findLIDsWindowJustified(c) }},
